@@ -40,6 +40,21 @@ CHECKS = {
          'Every (file, patch) of the C02 and C03 spaces is run at limits 0..3; whenever it applies completely at F it must apply identically (content and per-hunk placement) at every F\'>F.',
          'Lib level; CLI --fuzz plumbing is covered by the workspace sweep as far as built.',
          '5/C20'),
+ 'C05': ('wsweep', 'model_checking',
+         'bounded-exhaustive enumeration of series over a template alphabet (deviation-bounded) x option sets on the real binary, toy-quilt reference model as oracle',
+         'All series with <=2 (thorough 3) file patches and <=1 (2) deviations from plain modification, incl. per-patch -R/-pN/empty patch, crossed with backup mode, threads 1/2 and verbosity, are pushed by the real hooked binary; tree (contents, modes, emptied directories), names appended to applied-patches and exit status must equal the reference model after the first k patches.',
+         'Unique line tokens make placement trivial (C02 covers placement). Parallel runs use the serial schedule of the cooperative scheduler; other schedules are C06.',
+         '5/C05'),
+ 'C08': ('wsweep', 'model_checking',
+         'bounded-exhaustive enumeration of patch chains on one file x backup mode x backup count x threads x prior applied state on the real binary, toy-quilt oracle',
+         'Chains of up to 3 (4) file patches touching f with <=1 deviation, all <=2-file-patch series, all backup modes and counts, threads 1/2, and pushes on top of a really pushed prefix: .pc/<patch>/<file> must hold exactly the pre-patch content and mode for the last N patches of the run, nothing else; simulated pop restores the start tree.',
+         'A zero-length backup cannot distinguish an absent from an empty file (quilt format); the pop simulation ignores empty files.',
+         '5/C08'),
+ 'C13': ('wsweep', 'model_checking',
+         'bounded-exhaustive enumeration of failing patches (every subset of hunks/files failing, every failure reason) on the real binary; rejects parsed by the real parser and compared with the generator\'s failing hunks',
+         'Failing patches with 1-2 (3) files, 1-3 hunks per file and every non-empty subset of hunks failing, every failure reason of the menu, with threads 1/2/3: the set of *.rej and the hunks inside them (lines and start lines) must be exactly the failing hunks.',
+         'Two failing entries for the same file in one patch are outside the reject oracle (duplicate-reject behaviour is not modelled).',
+         '5/C13'),
  'C07': ('rqdist', 'model_checking',
          'explicit-state BFS over the real FilenameDistributor to fixpoint, invariant vs. union-find reference in every state',
          'Every reachable state of the real distributor over N<=5 (thorough 7) names is visited (fixpoint, so call sequences of every length); in each, build() must give all names of one reference component the same thread for 8 thread counts.',
@@ -86,7 +101,7 @@ def main():
              'technique': tech,
             })
             for e in m['engines']:
-                if e['name'] == eng or (eng not in ('rqmc', 'rqdist') and e['name'] == 'wsweep'):
+                if e['name'] == eng:
                     e['serves_properties'].append(pid)
         else:
             m['not_applicable'].append({'property_id': pid, 'reason': NOT_YET.get(pid, 'check designed (DESIGN.md section 5) but not built yet in this round; not claimed')})
